@@ -1,5 +1,5 @@
 from .. import facts
-from ..rules import glyph, image
+from ..rules import glyph, image, codec
 
 
 def run(ck):
@@ -16,3 +16,4 @@ def run(ck):
     glyph.r8_thaw_thresholds(ck, P)
     glyph.r9_copy_in_source_format_keeps_palette(ck, P)
     glyph.r10_tail_taken_only_from_nonempty_list(ck, P)
+    codec.r12_simd_helpers(ck, P, 'C17-R11')    # the single-pixel packers of the glyph fast paths: a glyph is drawn the same at every x only if head, body and tail pack alike
